@@ -168,7 +168,7 @@ def translate_decisions(path, spec, prefix='gen_'):
         parts.append('(* ---- %s ---- *)' % fname)
         for k, t in enumerate(tests, 1):
             parts.append('(* %s *)' % ast.unparse(t).replace('*)', '* )'))
-            parts.append('Definition %s%s_t%d %s : bool := %s.' % (prefix, fname.split('.')[-1].lstrip('_'), k, binders,
+            parts.append('Definition %s%s_t%d %s : bool := %s.' % (prefix, fname.split('.')[-1].strip('_'), k, binders,
                                                                   tr.bool_(t)))
         parts.append('')
     return '\n'.join(parts)
